@@ -247,7 +247,14 @@ def slice_load(ex: Exec, base: SV, sl: ast.Slice) -> SV:
 
         lo, hi = norm(sl.lower, z3.IntVal(0)), norm(sl.upper, n)
         return sv_str(z3.SubString(s, lo, z3.If(hi > lo, hi - lo, 0)))
+    for h in SLICE_HOOKS:
+        r = h(ex, base, sl)
+        if r is not None:
+            return r
     raise Unsupported(f"slice of {base.ty}")
+
+
+SLICE_HOOKS: list = []
 
 
 def list_with_star(ex: Exec, node: ast.List) -> SV:
